@@ -26,6 +26,29 @@ CLAIMED = {
     note="Trusted: Lean kernel, the FIL printer/reader pair, catch_unwind. 'Never panics/terminates' concerns Rust and C "
          "code (capstone, bad64) and is observed on the sweep only.",
     technique="Lean-verified well-formedness checker run on the lifters' real outputs"),
+ "C12": dict(
+    category="translation_validation",
+    text="For every IL function, if the four Lean checks pass on falcon's reaching_definitions / use_def / def_use output, then "
+         "on every execution (FStep runs; also every forward path of the location graph) the last writer of each scalar is in the "
+         "reported set, every reported assign/load reaches the location kill-free, use-def contains the last writer of every scalar "
+         "read and def-use is its inverse (theorem checks_sound); the checks run on thousands of generated functions per run, with "
+         "witness executions for every rejected output.",
+    design_ref="DESIGN.md §6 C12",
+    note="Scalars identified as falcon does (name, width, SSA version); intrinsics write exactly what they declare; theorems are "
+         "conditional on the reachability fuel sufficing (exhaustion is reported as an internal error, never a verdict); the "
+         "witness-state search is unverified.",
+    technique="Lean 4 definitional model + kernel-proved checks run on falcon's outputs"),
+ "C13": dict(
+    category="translation_validation",
+    text="constCheck f R is a Lean certificate checker proved sound for all functions, maps, initial states and runs of any length of "
+         "the function-level step relation (constCheck_sound, constEval_sound); it is run on the map returned by falcon's constants() "
+         "for thousands of generated functions per run, with a search for a contradicting execution whenever it rejects. Completion is "
+         "checked on functions built so that no scalar is read before it is assigned.",
+    design_ref="DESIGN.md §6 C13",
+    note="Runs end at Operation::Branch and intrinsics (executor semantics); one width per scalar name; the must-assigned certificate "
+         "and the Top-versus-absent parsing of the Debug rendering are unverified but only checked by the verified part; the completion "
+         "clause is tested, not proved.",
+    technique="Lean 4 kernel-proved certificate checker run on the real analysis output"),
 }
 
 checks = []
